@@ -48,6 +48,21 @@ Proof. exact flags. Qed.
 Theorem C11_llid_roundtrip : forall f, fragment_of_llid (llid_of_fragment f) = f.
 Proof. exact llid_roundtrip. Qed.
 
+(** The same through the link layers of both stacks: data PDUs (LLID, payload) as
+    produced by [on_l2cap_send_data] and consumed by [on_data_pdu]; the first PDU has
+    LLID 2 (start), the others LLID 1 (continuation). *)
+Theorem C11_ll_reassembly_inverse :
+  forall (mtu : nat) (cid : N) (sdu : bytes) (st0 : rx),
+    2 <= mtu -> (nlen sdu < 65536)%N -> (cid < 65536)%N ->
+    recv_all_ll st0 (send_sdu_ll mtu cid sdu)
+    = (deliverable cid sdu, {| fifo := None; expected := length sdu + 4 |}).
+Proof. exact ll_reassembly_inverse. Qed.
+
+Theorem C11_ll_start_llid :
+  forall mtu cid sdu, 2 <= mtu ->
+    exists d ds, send_sdu_ll mtu cid sdu = (2%N, d) :: map (fun q => (1%N, q)) ds.
+Proof. exact ll_start_llid. Qed.
+
 (** Truncated frames deliver nothing; oversized ones are cut to the announced length. *)
 Theorem C11_truncated_dropped :
   forall st d, 2 <= length d -> length d < N.to_nat (un_le16 d) + 4 ->
